@@ -15,6 +15,8 @@ import (
 	"reflect"
 	"runtime"
 	"strings"
+	"sync"
+	"sync/atomic"
 	"testing"
 
 	"github.com/whatap/golib/lang/pack"
@@ -457,3 +459,91 @@ func TestPoolEveryType(t *testing.T) {
 		}
 	}
 }
+
+// ---- the pool under concurrent tenants ---------------------------------------------------------------
+
+type PoolConcCase struct {
+	Types  []string `json:"types"`
+	G      int      `json:"g"`
+	Rounds int      `json:"rounds"`
+}
+
+// myPoisonIntact reports the first string field that no longer holds the poison this tenant stored.
+func myPoisonIntact(p udp.UdpPack, seed int) string {
+	for _, f := range fieldsOf(p) {
+		if f.typ.Kind() != reflect.String {
+			continue
+		}
+		if got, want := fieldVal(p, f).String(), poisonStr(seed, f.name); got != want {
+			return fmt.Sprintf("%s = %q, this tenant stored %q", f.name, got, want)
+		}
+	}
+	return ""
+}
+
+func runPoolConc(c PoolConcCase) *pbt.Result {
+	var wg sync.WaitGroup
+	var failed atomic.Bool
+	var mu sync.Mutex
+	msg := ""
+	fail := func(format string, a ...interface{}) {
+		mu.Lock()
+		if msg == "" {
+			msg = fmt.Sprintf(format, a...)
+		}
+		mu.Unlock()
+		failed.Store(true)
+	}
+	var tenures atomic.Int64
+	for g := 0; g < c.G; g++ {
+		wg.Add(1)
+		go func(g int) {
+			defer wg.Done()
+			defer func() {
+				if r := recover(); r != nil {
+					fail("goroutine %d: panic while using a pooled pack: %v", g, r)
+				}
+			}()
+			ptrs := poisonPtrs{}
+			seed := 1 + g%250
+			for r := 0; r < c.Rounds && !failed.Load(); r++ {
+				d := descByName[c.Types[(g+r)%len(c.Types)]]
+				p := d.mk(udp.UDP_PACK_VERSION)
+				if where := findPoison(p, poisonPtrs{}); where != "" {
+					fail("goroutine %d round %d: CreatePack(%s) returned a pack that holds a value of another tenant: %s", g, r, d.name, where)
+					return
+				}
+				fillPoison(p, seed, r%2 == 0, ptrs)
+				runtime.Gosched()
+				if where := myPoisonIntact(p, seed); where != "" {
+					fail("goroutine %d round %d: a field of the %s pack this goroutine holds was changed by somebody else: %s", g, r, d.name, where)
+					return
+				}
+				udp.ClosePack(p)
+				tenures.Add(1)
+			}
+		}(g)
+	}
+	wg.Wait()
+	if msg != "" {
+		return pbt.Fail("%s", msg)
+	}
+	return &pbt.Result{NT: c.G >= 2, Classes: []string{fmt.Sprintf("goroutines=%d", c.G)}}
+}
+
+var poolConcSpec = pbt.Register(pbt.Spec[PoolConcCase]{
+	Prop: "C07", Name: "pool-concurrent",
+	Rule:  "4-32 goroutines run 200-2000 tenures each over 1-2 of the pooled types: acquire (no field may hold any tenant's poison), store this tenant's poison in every field, yield, verify that every string field still holds this tenant's poison (nobody else clears or fills a pack that is held), release; sound for any schedule; non-trivial = every case; distinct by case",
+	Quick: 40, Thorough: 1500,
+	Draw: func(t *rapid.T) PoolConcCase {
+		all := typeNames(true)
+		c := PoolConcCase{G: rapid.IntRange(4, 32).Draw(t, "g"), Rounds: rapid.IntRange(200, 2000).Draw(t, "rounds")}
+		for i := rapid.IntRange(1, 2).Draw(t, "ntypes"); i > 0; i-- {
+			c.Types = append(c.Types, rapid.SampledFrom(all).Draw(t, "type"))
+		}
+		return c
+	},
+	Run: runPoolConc,
+})
+
+func TestPoolConcurrent(t *testing.T) { poolConcSpec.Check(t) }
